@@ -50,6 +50,12 @@ def run(chk):
     for b in behs:
         b.pop("rets", None)      # handles and gate counts are C16's business: only the results of prove and verify are judged here
     bad = [b for b in behs if b["expect_v"] == "reject"]
+    cap_n = 4000 if q else 45000
+    if len(bad) > cap_n:
+        # (depth 4 with two deviations and the confusion offsets yields ~10^5 behaviours: an evenly spaced subset is replayed; TLC still
+        #  checks DeviationIffUnsatisfied on every one of them)
+        chk.cov["behaviours_generated_not_replayed"] = len(bad) - len(bad[::(len(bad) + cap_n - 1) // cap_n])
+        bad = bad[::(len(bad) + cap_n - 1) // cap_n]
     chk.sample({"tlc_behaviour": bad[len(bad) // 2]})
     extra = []
     for k, b in enumerate(bad):
